@@ -33,6 +33,15 @@ pub fn boundary_mutations(s: &str) -> Vec<String> {
             for r in reps { if cs[i] != r { let mut v = cs.clone(); v[i] = r; out.push(v.iter().collect()); } }
         }
     }
+    // byte-length preserving non-ASCII: k adjacent one-byte characters replaced by one k-byte character
+    // (passes every `len() == n` guard and lands a character boundary inside a fixed-offset slice)
+    for (k, wide) in [(2usize, '\u{e9}'), (3, '\u{20ac}'), (4, '\u{1f600}')] {
+        if cs.len() < k { continue; }
+        for i in 0..=(cs.len() - k) {
+            if cs[i..i + k].iter().any(|c| !c.is_ascii() || *c == '\n') { continue; }
+            let mut v: Vec<char> = cs[..i].to_vec(); v.push(wide); v.extend_from_slice(&cs[i + k..]); out.push(v.iter().collect());
+        }
+    }
     let lines: Vec<&str> = s.split('\n').collect();
     for i in 0..lines.len() {
         let mut l = lines.clone(); l.insert(i, lines[i]); out.push(l.join("\n"));
@@ -58,6 +67,17 @@ pub fn judge_kind(kind: &'static str, ty: &'static str, c: &str, order: u64, a: 
         let r = match guarded(|| <T as SwiftField>::parse(c)) { Ok(r) => r, Err(_) => { a.panics += 1; return; } };
         let case = || json!({"field": ty, "content": c});
         match (&v, &r) {
+            (V::Unspec(why), Ok(f)) => {
+                // Where the format is silent on whether the input is legal, accepting it is not judged -- but
+                // an accepted value must still carry everything that was written: the serialised field may
+                // differ from the input only in canonical formatting (zeros, separators, slashes, blanks).
+                a.unspec += 1;
+                if let Ok(s) = guarded(|| f.to_swift_string()) {
+                    let body = s.splitn(3, ':').nth(2).unwrap_or("");
+                    let sk = |x: &str| -> String { x.chars().filter(|c| !matches!(c, ',' | '.' | '0' | ' ' | '\n' | '\r' | '/')).collect() };
+                    if sk(c) != sk(body) { a.col.add(format!("C05/{ty}/unspecified-input-altered/{why}"), order, || format!("read {:?}, holds {:?}", c, body), case); }
+                }
+            }
             (V::Unspec(_), _) => { a.unspec += 1; }
             (V::Reject(why), Ok(_)) => { a.judged += 1; a.col.add(format!("C05/{ty}/over-accept/{why}"), order, || format!("accepted {:?}", c), case); }
             (V::Accept(_), Err(e)) => { a.judged += 1; a.col.add(format!("C05/{ty}/reject-valid/{}", shape(c)), order, || format!("{e}"), case); }
